@@ -319,6 +319,11 @@ impl G {
                 3 => json!(["and", out, g]),                                     // guard too late (invalid)
                 4 => json!(["or", ["not", g], out]),                             // no capability through || (invalid)
                 5 => json!(["and", ["or", g, lit_bool(false)], out]),
+                6 => {
+                    // the test of an `if` whose else-branch can be true teaches nothing outside the `if` (invalid)
+                    let other = self.boolean(0);
+                    json!(["and", ["if", g, lit_bool(true), other], out])
+                }
                 _ => json!(["and", g, out]),
             };
         }
